@@ -147,6 +147,19 @@ Section LocalFrame.
           destruct Hp as (y & <- & _); reflexivity.
       + cbn in Hk, Ho. eapply IH; eassumption.
   Qed.
+  (* login state, working directory, dialogue state ...: after ANY interleaving the state of
+     connection i is the fold of its own inputs *)
+  Definition lnext (c : C) (x : input) : C := fst (fst (lstep c x)).
+  Theorem local_state_own : forall tr st i,
+    conns (fst (run (lift lstep) st tr)) i = fold_left lnext (map snd (own i tr)) (conns st i).
+  Proof.
+    induction tr as [|[j x] r IH]; intros st i; [reflexivity|].
+    rewrite run_cons_state, IH. cbn [own filter fst].
+    unfold lift. destruct (lstep (conns st j) x) as [[c rs] es] eqn:E. cbn [fst conns].
+    destruct (N.eqb_spec j i) as [->|Hne].
+    - cbn [map snd fold_left]. fold (own i r). rewrite upd_same. unfold lnext. now rewrite E.
+    - fold (own i r). rewrite upd_other by congruence. reflexivity.
+  Qed.
 End LocalFrame.
 
 (* ---------- tftp: limiter keyed by IP, buffers keyed by remote address ---------- *)
